@@ -844,3 +844,51 @@ def orderby_case(seed):
   c.ordered_preds = {'O'}
   c.check = ['O', 'C']
   return c
+
+
+# ---------------------------------------------------------------- family: builtins (C20, SQL-template built-ins)
+
+def builtins_case(seed):
+  rnd = random.Random(seed ^ 0xc20)
+  x, y, z, i, l = Var('x'), Var('y'), Var('z'), Var('i'), Var('l')
+  kind = ['range_in', 'range_size', 'range_elem', 'list_elem', 'list_size', 'in_bool', 'greatest',
+          'least', 'arith', 'compare', 'range_neg', 'elem_oob'][seed % 12]
+  rules = []
+  K = 2
+  if kind == 'range_in':
+    rules.append(Rule('P', [x, y], body=Conj([A('G', x), InP(y, RangeE(rnd.choice([x, Bin('-', x, Num(1)), Bin('+', x, Num(1))])))])))
+  elif kind == 'range_size':
+    rules.append(Rule('P', [x, Size(RangeE(x))], body=A('G', x)))
+  elif kind == 'range_elem':
+    rules.append(Rule('P', [x, y, Elem(RangeE(x), y)], body=A('E', x, y)))
+  elif kind == 'range_neg':
+    rules.append(Rule('P', [x, Size(RangeE(Bin('-', Num(0), x)))], body=A('G', x)))
+    rules.append(Rule('Q', [x], body=Conj([A('G', x), Neg(InP(y, RangeE(x)))])))
+  elif kind == 'list_elem':
+    items = [rnd.choice([x, y, Num(rnd.randint(0, 5)), Bin('+', x, y)]) for _ in range(rnd.randint(1, 4))]
+    rules.append(Rule('P', [x, y, Elem(ListE(items), rnd.choice([y, Num(rnd.randrange(len(items))), Bin('-', y, Num(1))]))],
+                      body=A('E', x, y)))
+  elif kind == 'elem_oob':
+    items = [x, Num(7)]
+    rules.append(Rule('P', [x, IsNullE(Elem(ListE(items), x))] if False else [x], body=Conj([A('G', x), IsNull(Elem(ListE(items), x))])))
+  elif kind == 'list_size':
+    rules.append(Rule('P', [x, Size(ListE([x] * rnd.randint(0, 3)))], body=A('G', x)))
+    rules.append(Rule('Q', [x, Size(l)], body=Conj([A('G', x), Cmp('==', l, ListE([]))])))
+  elif kind == 'in_bool':
+    lst = ListE([rnd.choice([y, Num(rnd.randint(0, 3)), Bin('+', x, Num(1))]) for _ in range(rnd.randint(0, 3))])
+    rules.append(Rule('P', [x, y], body=Conj([A('E', x, y), rnd.choice([InB(x, lst), BNot(InB(x, lst)),
+                                                                       BOr(InB(x, lst), Cmp('>', y, Num(1)))])])))
+  elif kind in ('greatest', 'least'):
+    name = 'Greatest' if kind == 'greatest' else 'Least'
+    args = [x, y] + ([Num(rnd.randint(-1, 2))] if rnd.random() < 0.5 else [])
+    rules.append(Rule('P', [x, y, Builtin(name, args)], body=A('E', x, y)))
+  elif kind == 'arith':
+    e = rnd.choice([Bin('-', Bin('+', x, y), Bin('*', Num(3), x)), UMinus(Bin('-', x, y)),
+                    Bin('*', Num(-2), Bin('+', x, Num(1))), Bin('-', x, UMinus(y))])
+    rules.append(Rule('P', [x, y, e], body=A('E', x, y)))
+  else:
+    ops = ['==', '!=', '<', '<=', '>', '>=']
+    rules.append(Rule('P', [x, y], body=Conj([A('E', x, y), Cmp(rnd.choice(ops), x, rnd.choice([y, Num(0), Bin('+', y, Num(1))]))])))
+    rules.append(Rule('Q', [x, If(Cmp(rnd.choice(ops), x, y), Num(1), Num(0))], body=A('E', x, y)))
+  prog = Program(rules, ext=EXT)
+  return Case(prog, 'builtins', K=K, notes=kind)
